@@ -117,10 +117,40 @@ def h_leaf(rec):
     except Exception as ex:  # noqa: BLE001
         tried.append(f"model point not usable ({type(ex).__name__}: {ex})")
     # models of uninterpreted exp/log/tanh may be non-standard: search the boundary-directed grid of this class
+    if os.environ.get("FJVC_REPLAY_SKIP_GRID") == "1":
+        return False, f"not reproduced at the model point ({tried}); the grid of this class already passed in this run"
     fails = rt.rt_leaf_grid(prop, cname, first_only=True)
     if fails:
         return True, fails[0]["what"]
     return False, f"not reproduced on the real code: {tried}; boundary-directed grid of {cname} passed"
+
+
+@handler("spline")
+def h_spline(rec):
+    m, rp, prop = rec["model"] or {}, rec["replay"], rec["property"]
+    tried = []
+    try:
+        xp, yp, dd = ([rt.fnum(v) for v in m["arr:" + k]] for k in ("x_pos", "y_pos", "derivatives"))
+        lo_, hi_ = rt.fnum(m["lo"]), rt.fnum(m["hi"])
+        ok = len(xp) >= 3 and all(a < b for a, b in zip(xp, xp[1:])) and all(a < b for a, b in zip(yp, yp[1:])) and all(v > 0 for v in dd) and xp[0] == lo_ == yp[0] and xp[-1] == hi_ == yp[-1]
+        if ok:
+            b = rt.build_spline_raw(xp, yp, dd, (lo_, hi_))
+            x = rt.fnum(m["x"]) if rp.get("input") == "x" else None
+            y = rt.fnum(m["y"]) if rp.get("input") == "y" else None
+            fails = rt.rt_spline(prop, b, x=x, y=y, label=f"RationalQuadraticSpline with x_pos={xp}, y_pos={yp}, derivatives={dd}")
+            tried.append("model point")
+            if fails:
+                return True, "; ".join(fails)
+        else:
+            tried.append("model arrays do not satisfy the class invariant off the instantiated indices")
+    except Exception as ex:  # noqa: BLE001
+        tried.append(f"model not usable ({type(ex).__name__}: {ex})")
+    if os.environ.get("FJVC_REPLAY_SKIP_GRID") == "1":
+        return False, f"not reproduced at the model point ({tried}); the grid of this class already passed in this run"
+    fails = rt.rt_spline_grid(prop, first_only=True)
+    if fails:
+        return True, fails[0]["what"]
+    return False, f"not reproduced on the real code ({tried}); boundary-directed spline grid passed"
 
 
 def main(path):
